@@ -262,6 +262,8 @@ def run(ctx, rep):
     # under the closure's own path first and under the enclosing function otherwise (moving code into or out of a
     # closure does not change what it can do), and an entry covers at most `count` sites (the number confirmed by
     # reading): a further site of the same kind in the same function has no disposition
+    unmatched = []
+    used_total = {}
     for (rp, kd), lst in sorted(pending.items()):
         used_n = {}
         for p, o, s, fn in lst:
@@ -279,12 +281,39 @@ def run(ctx, rep):
                         f"site was safe because of guard(s) {missing}, which no longer exist: {ent['reason']}"),
                        fn.loc(s['line']), cfg, sample=(n_table == 1))
             else:
-                extra = '' if ent is None else f" (the table entry {tkey} covers {ent.get('count')} site(s); this one is additional)"
-                rep.ob('C18.site', key, False,
-                       f"{kd} in {p} can panic on a malformed proof and has no disposition (not auto-discharged, not in tables/c18_safe.json){extra}",
-                       fn.loc(s['line']), cfg)
+                unmatched.append((rp, kd, p, o, s, fn, tkey if ent is not None else None))
         for tkey, n in used_n.items():
             table_counts[tkey] = max(table_counts.get(tkey, 0), n)
+            used_total[tkey] = n
+    # code moved between functions of one module (a helper extracted, a helper inlined): the sites an entry's function
+    # no longer has may be found, in the same number, in another function of the same module. Such a site takes over
+    # the entry (reason and guards); a site beyond what the module's entries cover has no disposition.
+    pool = {}
+    for tkey, ent in safe.items():
+        if tkey.startswith('_') or not isinstance(ent, dict) or 'count' not in ent:
+            continue
+        fpath, kd = tkey.rsplit('|', 1)
+        free = ent['count'] - used_total.get(tkey, 0)
+        if free > 0:
+            pool.setdefault((module_of(fpath), kd), []).extend([tkey] * free)
+    for rp, kd, p, o, s, fn, over in unmatched:
+        key = f'{p}|{kd}|{o}'
+        donors = pool.get((module_of(rp), kd), [])
+        if donors:
+            tkey = donors.pop(0)
+            ent = safe[tkey]
+            used_safe.add(tkey)
+            missing = [g for g in ent.get('needs', []) if not guard_ok(g)]
+            n_table += 1
+            rep.ob('C18.site', key, not missing,
+                   (f"table (site moved within {module_of(rp)}, was in {tkey.split('|')[0].split('::')[-1]}): {ent['reason']}" if not missing else
+                    f"site was safe because of guard(s) {missing}, which no longer exist: {ent['reason']}"),
+                   fn.loc(s['line']), cfg)
+        else:
+            extra = '' if over is None else f" (the table entry {over} covers {safe[over].get('count')} site(s); this one is additional)"
+            rep.ob('C18.site', key, False,
+                   f"{kd} in {p} can panic on a malformed proof and has no disposition (not auto-discharged, not in tables/c18_safe.json){extra}",
+                   fn.loc(s['line']), cfg)
     rep.note('table_entry_site_counts', table_counts)
     stale = sorted(k for k in safe if k not in used_safe and not k.startswith('_'))
     rep.note('safe_table_entries_unused', stale[:20])
@@ -303,6 +332,15 @@ def run(ctx, rep):
                    '', cfg)
 
 
+def module_of(path):
+    """crate::module of a function path (crate::layout::<name> for the layouts)"""
+    import re
+    q = re.sub(r'^<+', '', path).split(' as ')[0]
+    parts = q.split('::')
+    n = 3 if len(parts) > 2 and parts[1] == 'layout' else 2
+    return '::'.join(parts[:n])
+
+
 def root_fn(path):
     import re
     return re.sub(r'(::\{closure#\d+\})+$', '', path)
@@ -312,6 +350,14 @@ def common_layout_of(path):
     import re
     m = re.match(r'^<swiftness_air::layout::(\w+)::Layout as ', path)
     return m.group(1) if m else None
+
+
+def in_module(g, root):
+    """the guard is written in `root` itself or in a helper of the same module that `root` calls (directly or through
+    such helpers): not somewhere deeper in another crate, after the values have been used"""
+    m = module_of(root)
+    chain = [v.split('@')[0] for v in g.via if '@' in v] + [g.fn]
+    return all(module_of(c) == m for c in chain)
 
 
 def guard_checker(db, lay):
@@ -355,16 +401,16 @@ def guard_checker(db, lay):
                 r = r and find('swiftness_fri::formula::' + f, lambda g: g.rel == 'EQ' and g.covers == 'all' and 'len(a1)' in (g.lhs | g.rhs))
         elif name == 'composition-cols':
             CD = 'const:' + LAYOUT_TRAIT + '::CONSTRAINT_DEGREE'
-            r = find(VERIFY, lambda g: g.rel == 'EQ' and g.covers == 'all' and g.fn == VERIFY and
+            r = find(VERIFY, lambda g: g.rel == 'EQ' and g.covers == 'all' and in_module(g, VERIFY) and
                      any(x.startswith('a1.config.composition.n_columns') for x in g.lhs | g.rhs) and CD in (g.lhs | g.rhs), b)
         elif name == 'domain<=64':
-            r = find(VERIFY, lambda g: g.rel == 'LE' and g.covers == 'all' and g.fn == VERIFY and
+            r = find(VERIFY, lambda g: g.rel == 'LE' and g.covers == 'all' and in_module(g, VERIFY) and
                      {'a1.config.log_trace_domain_size', 'a1.config.log_n_cosets'} <= set(g.lhs) and
                      any(x.endswith('=64') or x == 'lit:64' for x in g.rhs), b)
         elif name == 'fri-commitment-shape':
-            r = find(STARK_COMMIT, lambda g: g.rel == 'EQ' and g.covers == 'all' and g.fn == STARK_COMMIT and
+            r = find(STARK_COMMIT, lambda g: g.rel == 'EQ' and g.covers == 'all' and in_module(g, STARK_COMMIT) and
                      'len(a3.fri.inner_layers)' in (g.lhs | g.rhs) and 'a4.fri.n_layers' in (g.lhs | g.rhs), b) and \
-                find(STARK_COMMIT, lambda g: g.rel == 'EQ' and g.covers == 'all' and g.fn == STARK_COMMIT and
+                find(STARK_COMMIT, lambda g: g.rel == 'EQ' and g.covers == 'all' and in_module(g, STARK_COMMIT) and
                      'len(a3.fri.last_layer_coefficients)' in (g.lhs | g.rhs) and 'a4.fri.log_last_layer_degree_bound' in (g.lhs | g.rhs), b)
         elif name == 'witness-nonempty':
             r = find(COMPUTE_COSET, lambda g: g.rel in ('NONEMPTY',) and 'a2' in g.lhs)
